@@ -57,15 +57,6 @@ Definition p_info_change (a : pacct) (f : info -> info) : pacct * trans :=
   let st' := on_changed st (had_no_nonce_and_code prev) in
   ((Some i', st'), mkTrans (Some i') st' prev st no_slots false).
 
-(* PS:38-46 *)
-Definition p_increment (a : pacct) (inc : N) : pacct * trans :=
-  p_info_change a (fun i => set_balance i (sat_add (balance i) inc)).
-
-(* PS:51-57 *)
-Definition p_drain (a : pacct) : option (N * (pacct * trans)) :=
-  let bal := match fst a with Some i => balance i | None => balance default_info end in
-  if bal <=? U128_MAX then Some (bal, p_info_change a (fun i => set_balance i 0)) else None.
-
 (* PS:164-189 *)
 Definition p_change (a : pacct) (new : info) (storage : list (key * (word * word))) : pacct * trans :=
   let st := snd a in
@@ -179,37 +170,50 @@ Definition p_load (d : db) (p : pstate) (a : addr) : pstate * pacct :=
   | None => let acc := load_pair d a in (p_put p a acc, acc)
   end.
 
-(* PS:510-525 *)
-Fixpoint p_increments (d : db) (p : pstate) (bs : list (addr * N)) : pstate * list (addr * trans) :=
-  match bs with
-  | [] => (p, [])
-  | (a, inc) :: bs' =>
-      if inc =? 0 then p_increments d p bs' else
-      let '(p1, acc) := p_load d p a in
-      let '(acc', t) := p_increment acc inc in
-      let '(p2, ts) := p_increments d (p_put p1 a acc') bs' in
-      (p2, (a, t) :: ts)
-  end.
-
-(* PS:746-764 *)
-Fixpoint p_drains (d : db) (p : pstate) (ads : list addr) : option (pstate * list N * list (addr * trans)) :=
-  match ads with
-  | [] => Some (p, [], [])
-  | a :: ads' =>
-      let '(p1, acc) := p_load d p a in
-      match p_drain acc with
-      | None => None
-      | Some (bal, (acc', t)) =>
-          match p_drains d (p_put p1 a acc') ads' with
-          | None => None
-          | Some (p2, bals, ts) => Some (p2, bal :: bals, (a, t) :: ts)
-          end
-      end
-  end.
-
 (* PS:527-544 *)
 Definition p_basic (d : db) (p : pstate) (a : addr) : pstate * option info :=
   let '(p1, acc) := p_load d p a in (p1, fst acc).
+
+(* increment_balances / drain_balances (parallel_state.rs, after the F7 repair): as in revm's
+   `DatabaseCommitExt` - first every listed account is read through `basic_ref` (which caches it)
+   and turned into a touched account with the new balance, then the accounts are committed in
+   order through `apply_account_state`.  Outer None = panic. *)
+Fixpoint p_touch_all (d : db) (p : pstate) (bs : list (addr * (info -> info))) : pstate * list (addr * eaccount) :=
+  match bs with
+  | [] => (p, [])
+  | (a, f) :: bs' =>
+      let '(p1, oi) := p_basic d p a in
+      let '(p2, es) := p_touch_all d p1 bs' in
+      (p2, (a, touched_account oi f) :: es)
+  end.
+
+Definition p_increments (d : db) (p : pstate) (bs : list (addr * N)) : option (pstate * list (addr * trans)) :=
+  let '(p1, es) := p_touch_all d p (map (fun b => (fst b, incr_fun (snd b))) bs) in
+  p_apply_evm_state p1 es.
+
+Fixpoint p_drain_all (d : db) (p : pstate) (ads : list addr) : option (pstate * list N * list (addr * eaccount)) :=
+  match ads with
+  | [] => Some (p, [], [])
+  | a :: ads' =>
+      let '(p1, oi) := p_basic d p a in
+      let bal := balance (match oi with Some i => i | None => default_info end) in
+      if bal <=? U128_MAX then
+        match p_drain_all d p1 ads' with
+        | None => None
+        | Some (p2, bals, es) => Some (p2, bal :: bals, (a, touched_account oi drain_fun) :: es)
+        end
+      else None
+  end.
+
+Definition p_drains (d : db) (p : pstate) (ads : list addr) : option (pstate * list N * list (addr * trans)) :=
+  match p_drain_all d p ads with
+  | None => None
+  | Some (p1, bals, es) =>
+      match p_apply_evm_state p1 es with
+      | None => None
+      | Some (p2, ts) => Some (p2, bals, ts)
+      end
+  end.
 
 (* PS:546-558 *)
 Definition p_code (d : db) (p : pstate) (h : hash) : pstate * codeid :=
@@ -244,8 +248,10 @@ Definition p_step (d : db) (p : pstate) (o : op) : pstate * out :=
       | Some (p1, ts) => (p_with_ts p1 (apply_transition (p_ts p1) ts), OutTrans ts)
       end
   | OIncrement bs =>
-      let '(p1, ts) := p_increments d p bs in
-      (p_with_ts p1 (apply_transition (p_ts p1) ts), OutTrans ts)
+      match p_increments d p bs with
+      | None => (p, OutPanic)
+      | Some (p1, ts) => (p_with_ts p1 (apply_transition (p_ts p1) ts), OutTrans ts)
+      end
   | ODrain ads =>
       match p_drains d p ads with
       | None => (p, OutPanic)
